@@ -30,7 +30,7 @@ SPEC = {
     "modules": ["HC.Props.C04"],
     "extracted": ["C04Sites", "H11Tables"],
     "technique": "Lean 4 theorems over an Except-valued executable model of the receive-side glue of H2Protocol (every `try`/`except` clause extracted from the source per site, class membership from the installed libraries' MRO, libraries as oracles restricted by LibWf) and over the H11Protocol / WSStream models: totality for every library-event sequence, application behaviour and schedule; the HTTP/1 error path; non-interference of the merely unusual streams.  Tied by replaying the tap log of real H2Protocol runs through the model (calls, dictionaries, priority tree, uncaught exceptions, LibWf per answer), by replaying adversarial direct-drive sessions of the real H11Protocol (any application message to any stream object at any time, WebSocket frames of every kind, closes, shutdown, the deferred StreamClosed) through `c04.h1total` (LibWf per op, escape site <=> handler exception, never rejected, h11 states) and by robustness monitors on the real TCPServer of both workers over corpus, random, mutated and grammar-generated inputs",
-    "level_text": "Proved in Lean (HC/Props/C04.lean over HC/Proto/H2Recv.lean): for EVERY sequence of h2 events, application sends (stream_send), send-task iterations, closes and shutdown, with every answer the h2 and priority libraries can give (LibWf: h2 raises only ProtocolError subclasses, priority only PriorityError subclasses, MissingStreamError iff absent, DuplicateStreamError iff present, RequestReceived has :method and has :path unless it is an ordinary CONNECT), no exception escapes the reader, stream_send or the send task (total_h2_partial / total_h2_from; invariant: every buffered stream is in the priority tree) - except RecursionError out of next(priority) on a ~1000 deep dependency chain, which is the proved negation witness total_h2_fails_as_is (finding F44); receive_data raising any ProtocolError yields exactly flush (GOAWAY) then Closed with no state touched (h2_protocol_error); leaving out the merely unusual events of a stream (DATA/END_STREAM after its response completed, CONNECT without :path, non-ASCII :method/:path) leaves the final state and every other stream's observation identical (isolation, odd_step), and those requests are answered by exactly one send_headers on their own stream (unusual_request_answered, createStream_rejected).  HTTP/1 (over the H11Protocol model of C06): a RemoteProtocolError with hint h while no completed request is being answered and h11's writer is IDLE or SEND_RESPONSE produces exactly send(Response h [content-length 0, connection close, server headers]), send(EndOfMessage), Closed, the reader leaves the loop and no application or stream is created (h1_malformed, h1_malformed_no_app); in any other writer state only Closed (h1_malformed_other_state); that path handles the error in every state (h1_protocol_error_total).  Every except tuple, the raw_path default/guard, the decode check, the order of tree entry vs stream creation, the HTTP/1 error states and error headers and the WSStream early-data state are extracted from the source on every run (h1_error_guard, ws_early_data_guard and the catches_* lemmas fail to build when they change); the exception class hierarchy is read from the installed h2 / priority / h11 / wsproto.  HTTP/1 + WebSocket whole flow (HC/Proto/H11Total|H11Inv|H11Run|H11Ev|H11Safe.lean, HC/Stream/WsTotal.lean): the two meanings of the model's `none` are separated without changing what the driver reports - `enabled` (LibWf: which next_event() / H11WSConnection / wsproto results are possible in which h11 state and mode, header names as h11 hands them over, the reassembly state of wsproto's messages; scheduling: a read starts only when the previous handle(RawData) returned, no application runs between a Request with Expect and the 100 Continue at the next loop top) and `escapeEv` (every place where an exception can leave _handle_events, including the LocalProtocolError _send_h11_event re-raises for the 100 Continue, the error response, the 101 of an h2c upgrade and a stream's own 404/400); h1_rejected_classified: every `none` is one of the two.  total_h1 / total_h1_from / total_h1_step: for EVERY op sequence satisfying LibWf - library events, sends of ANY application (valid or not) on ANY stream object (live or orphaned), handle(Closed), shutdown, the deferred StreamClosed of a self-answering stream, in every interleaving - no op lets an exception escape the connection handler and the model accepts every op (total_h1_never_rejected); invariant: every stream object is inert or it is the latest one and h11's reader side is past IDLE; an unfinished HTTP response keeps h11's writer out of IDLE/DONE/MUST_CLOSE (so recycling finds only inert objects); a WebSocket stream in HANDSHAKE has the writer in SEND_RESPONSE with the upgrade proposal registered (so the 400 for early data and every denial head are accepted); the 100-continue flag is only up between a Request and the next loop top.  total_ws / total_ws_from: WSStream.handle never raises for any sequence of wsproto events allowed by the library's reassembly state (fragments of one message have one kind), any application messages (with or without a raising protocol) and closes; total_ws_needs_libWf shows the restriction is necessary (a BytesMessage fragment inside a text message raises TypeError in WebsocketBuffer.extend).",
+    "level_text": "Proved in Lean (HC/Props/C04.lean over HC/Proto/H2Recv.lean): for EVERY sequence of h2 events, application sends (stream_send), send-task iterations, closes and shutdown, with every answer the h2 and priority libraries can give (LibWf: h2 raises only ProtocolError subclasses, priority only PriorityError subclasses, MissingStreamError iff absent, DuplicateStreamError iff present, RequestReceived has :method and has :path unless it is an ordinary CONNECT), no exception escapes the reader, stream_send or the send task (total_h2_partial / total_h2_from; invariant: every buffered stream is in the priority tree) - except RecursionError out of next(priority) on a ~1000 deep dependency chain, which is the proved negation witness total_h2_fails_as_is (finding F44); receive_data raising any ProtocolError yields exactly flush (GOAWAY) then Closed with no state touched (h2_protocol_error); leaving out the merely unusual events of a stream (DATA/END_STREAM after its response completed, CONNECT without :path, non-ASCII :method/:path) leaves the final state and every other stream's observation identical (isolation, odd_step), and those requests are answered by exactly one send_headers on their own stream (unusual_request_answered, createStream_rejected).  HTTP/1 (over the H11Protocol model of C06): a RemoteProtocolError with hint h while no completed request is being answered and h11's writer is IDLE or SEND_RESPONSE produces exactly send(Response h [content-length 0, connection close, server headers]), send(EndOfMessage), Closed, the reader leaves the loop and no application or stream is created (h1_malformed, h1_malformed_no_app); in any other writer state only Closed (h1_malformed_other_state); that path handles the error in every state (h1_protocol_error_total).  Every except tuple, the raw_path default/guard, the decode check, the order of tree entry vs stream creation, the HTTP/1 error states and error headers and the WSStream early-data state are extracted from the source on every run (h1_error_guard, ws_early_data_guard and the catches_* lemmas fail to build when they change); the exception class hierarchy is read from the installed h2 / priority / h11 / wsproto.  HTTP/1 + WebSocket whole flow (HC/Proto/H11Total|H11Inv|H11Run|H11Ev|H11Safe.lean, HC/Stream/WsTotal.lean): the two meanings of the model's `none` are separated without changing what the driver reports - `enabled` (LibWf: which next_event() / H11WSConnection / wsproto results are possible in which h11 state and mode, header names as h11 hands them over, the reassembly state of wsproto's messages; scheduling: a read starts only when the previous handle(RawData) returned, no application runs between a Request with Expect and the 100 Continue at the next loop top) and `escapeEv` (every place where an exception can leave _handle_events, including the LocalProtocolError _send_h11_event re-raises for the 100 Continue, the error response, the 101 of an h2c upgrade and a stream's own 404/400); h1_rejected_classified: every `none` is one of the two.  total_h1 / total_h1_from / total_h1_step: for EVERY op sequence satisfying LibWf - library events, sends of ANY application (valid or not) on ANY stream object (live or orphaned), handle(Closed), shutdown, the deferred StreamClosed of a self-answering stream, in every interleaving - no op lets an exception escape the connection handler and the model accepts every op (total_h1_never_rejected); invariant: every stream object is inert or it is the latest one and h11's reader side is past IDLE; an unfinished HTTP response keeps h11's writer out of IDLE/DONE/MUST_CLOSE (so recycling finds only inert objects); a WebSocket stream in HANDSHAKE has the writer in SEND_RESPONSE with the upgrade proposal registered (so the 400 for early data and every denial head are accepted); the 100-continue flag is only up between a Request and the next loop top.  total_ws / total_ws_from: WSStream.handle never raises for any sequence of wsproto events allowed by the library's reassembly state (fragments of one message have one kind), any application messages (with or without a raising protocol) and closes; total_ws_needs_libWf shows the restriction is necessary (a BytesMessage fragment inside a text message raises TypeError in WebsocketBuffer.extend).  Client bytes turned into text by the reader's own glue: every .decode / split_comma_header / int / base64 call of _handle_events, _check_protocol, _create_stream and H2CProtocolRequiredError.__init__ is extracted with its codec, its operand (request-line field, header name, value of WHICH header) and the except clauses around it (C04Sites.h11ReaderDecodes); escapeEv names a `headerDecode` escape for a request on which a non-total, uncaught site meets a header value with a byte >= 0x80, and h1_decode_sites_total (by decide over the extracted list: codec latin-1, or caught, or an ASCII-by-grammar field) is a hypothesis total_h1 discharges - so the VALUES of Connection / Upgrade / HTTP2-Settings may hold any byte 0x80-0xff (h1_no_decode_escape, h1_decode_sites_cover).",
     "level_note": "Trusted: Lean kernel; tools/extract_c04.py (per-try-site extraction); the hand-written model HC/Proto/H2Recv.lean (one _send_data iteration is atomic in it; stream objects are opaque: their handle() does not raise - for WSStream that is the content of total_ws, for HTTPStream the type of Http.handle - apart from the ASCII path they require of a Request); LibWf is an assumption about h2 4.4.1 / priority 2.0.0 that is checked on every tap log of this run (an answer outside LibWf is reported as a disagreement); h2's, h11's and wsproto's own byte-level parsers are library behaviour: 'every byte string' is a theorem over every library-event sequence plus sampled bytes -> events.  The h2c upgrade path (ProtocolWrapper / H2CProtocolRequiredError) is covered by the monitors only.",
     "rule": "distinct = distinct sequences (length <= 8 window) of (library event kind, stream-state class in {unknown, live, forgotten, conn}) that reached the glue in direct-drive runs, plus distinct (family, generator class, segmentation, worker) cells end-to-end; non-trivial = the sequence contains an event for a forgotten/unknown stream, a refused or rejected request, a PRIORITY event, a reset, or receive_data raised",
     "trusted": ["h2 4.4.1 / hpack / hyperframe / priority 2.0.0 / h11 0.16 / wsproto as libraries (LibWf sampled by taps)",
@@ -39,7 +39,7 @@ SPEC = {
                 "the h2c upgrade path is monitored here, not modelled: F43 (an HTTP2-Settings value h2 refuses raised out of the handler after the 101) is repaired (2e1c011: GOAWAY + Closed); its corpus entries stay as ordinary cases, the refusal itself is C13's theorem h2c_served_iff_settings_accepted / h2c_refused_source",
                 "total_h1 / total_ws are theorems about one-op-at-a-time models: the awaits INSIDE one op (e.g. the reader handling WebSocket bytes while the application's own 500 / accept is suspended in a write) are not interleavings of the model; they are covered by the end-to-end monitors on both workers only (F40 and F45 were such windows)",
                 "h11's body-framing checks (too much / too little data for a declared Content-Length) are outside the state machine H11M: they raise LocalProtocolError into the application's send only (no reader-side send declares a length it does not keep)"],
-    "assumptions": ["HTTP/1: one op of HC.Proto.H11 (the handling of one next_event() result, one app_send, handle(Closed)) is atomic; no application step between a Request carrying Expect: 100-continue and the 100 Continue sent at the top of the reader's next iteration (there is no suspension point in between; `sched`)",
+    "assumptions": ["h11 hands over request-line fields (method, target, version) and header names in ASCII only (its grammar: token, vchar+, HTTP/d.d); checked on every tapped Request event", "HTTP/1: one op of HC.Proto.H11 (the handling of one next_event() result, one app_send, handle(Closed)) is atomic; no application step between a Request carrying Expect: 100-continue and the 100 Continue sent at the top of the reader's next iteration (there is no suspension point in between; `sched`)",
                     "one `_send_data` iteration is atomic in the model (its interleaving with `_reset_abandoned_response` is C05/C08 territory)",
                     "config.h2_max_concurrent_streams stays far below the interpreter's recursion limit"],
 }
@@ -582,6 +582,18 @@ def corpus() -> List[dict]:
     h1case("F43_h2c_settings_value_out_of_range", [b"GET / HTTP/1.1\r\nhost: x\r\nupgrade: h2c\r\nhttp2-settings: AAUAAAAA\r\n\r\n", b"PRI * HTTP/2.0\r\n\r\nSM\r\n\r\n"])
     out.append({**h2c_opening(None, "unknown_server_name", "", "none"), "family": "corpus", "name": "F82_h2c_unknown_server_name_deadlock", "bounded": True})
     out.append({**h2c_opening(None, "invalid_ws_handshake", "", "later_read"), "family": "corpus", "name": "F82_h2c_invalid_ws_handshake_deadlock", "bounded": True})
+    # a byte 0x80-0xff (h11 accepts obs-text in field values) in the VALUE of each header hypercorn interprets itself, on a plain
+    # request and on a WebSocket handshake; a second request follows on the same connection
+    follow = b"GET /after HTTP/1.1\r\nHost: x\r\n\r\n"
+    for k, name in enumerate(HT.INTERPRETED):
+        how = HT.OBS_HOWS[k % len(HT.OBS_HOWS)]
+        ob = HT.OBS_BYTES[(3 * k + 6) % len(HT.OBS_BYTES)]
+        h1case(f"obs_text_{name.decode().lower()}_{how}", [HT.obs_text(HT.request_bytes(None, "plain"), name, how, ob), follow], waits={1: 0.2},
+               cfg={"server_names": ["x"]} if name == b"Host" else {})
+        h1case(f"obs_text_ws_{name.decode().lower()}_{how}", [HT.obs_text(ws, name, how, ob)], scripts=("ws",))
+    h1case("obs_text_connection_keep_alive", [b"GET / HTTP/1.1\r\nHost: x\r\nConnection: k\xe9ep-alive\r\n\r\n", follow], waits={1: 0.2})
+    h1case("obs_text_connection_close_token", [b"GET / HTTP/1.1\r\nHost: x\r\nConnection: close, \xff\r\n\r\n"])
+    h1case("obs_text_h2c_connection", [b"GET / HTTP/1.1\r\nHost: x\r\nUpgrade: h2c\r\nConnection: Upgrade, HTTP2-Settings, \xa0\r\nHTTP2-Settings: AAMAAABkAAQAAP__\r\n\r\n"])
     h1case("h1_malformed_request_line", [b"GET\r\n\r\n"])
     h1case("h1_bad_header", [b"GET / HTTP/1.1\r\nhost x\r\n\r\n"])
     h1case("h1_oversized_head", [b"GET / HTTP/1.1\r\nhost: x\r\nx: " + b"a" * 20000 + b"\r\n\r\n"])
@@ -644,6 +656,24 @@ def gen_e2e(ctx: Ctx) -> List[dict]:
         reads = [data] if seg == "one" else ([wsreq, frames] if seg == "two" else cut(rng, data, "random"))
         cases.append({"family": "ws_answer_race", "proto": "h1", "name": answers[i % len(answers)], "seg": seg, "reads": [b2s(x) for x in reads],
                       "scripts": [answers[i % len(answers)]], "eof": rng.random() < 0.7})
+    # valid HTTP/1 sessions with obs-text put into the value of a header hypercorn interprets itself
+    h1names = [n for n in names if sessions[n][0] == "h1"]
+    for i in range(ctx.budget(22, 400)):
+        name = h1names[i % len(h1names)]
+        _, data, scripts = sessions[name]
+        hname = HT.INTERPRETED[i % len(HT.INTERPRETED)]
+        how, ob = rng.choice(HT.OBS_HOWS), rng.choice(HT.OBS_BYTES)
+        # the head to touch: the first one, or (pipelines) a later one
+        heads = [j for j in range(len(data)) if data.startswith(b" HTTP/1.1\r\n", j)]
+        start = 0
+        if len(heads) > 1 and rng.random() < 0.5:
+            j = rng.choice(heads[1:])
+            start = data.rfind(b"\r\n", 0, j) + 2 if data.rfind(b"\r\n", 0, j) >= 0 else 0
+            start = max(start, data.rfind(b"\r\n\r\n", 0, j) + 4 if data.rfind(b"\r\n\r\n", 0, j) >= 0 else 0)
+        touched = data[:start] + HT.obs_text(data[start:], hname, how, ob)
+        cases.append({"family": "h1_obs_text", "proto": "h1", "name": name, "how": f"{hname.decode().lower()}:{how}",
+                      "reads": [b2s(x) for x in cut(rng, touched, rng.choice(["one", "random", "random", "bytewise"]))], "scripts": scripts,
+                      "eof": rng.random() < 0.7})
     # random bytes
     for i in range(ctx.budget(24, 250)):
         n = rng.choice([1, 3, 9, 24, 60, 300, 5000, 20000])
@@ -1006,7 +1036,7 @@ def run(ctx: Ctx) -> None:
     direct = [gen_direct(ctx.rng, i) for i in range(ctx.budget(500, 8000))]
     check_direct(ctx, direct)
     # HTTP/1 + WebSocket whole flow: LibWf / escape sites of total_h1 on adversarial direct-drive sessions of the real H11Protocol
-    HT.check(ctx, [HT.gen_case(ctx.rng, i) for i in range(ctx.budget(250, 5000))])
+    HT.check(ctx, HT.obs_corpus() + [HT.gen_case(ctx.rng, i) for i in range(ctx.budget(250, 5000))])
     check_e2e(ctx, gen_e2e(ctx))
 
 
@@ -1014,7 +1044,7 @@ def search(ctx: Ctx) -> None:
     """a proof obligation or the correspondence broke: corpus of unusual-but-legal sequences, then grammar fuzz again"""
     check_e2e(ctx, corpus())
     check_direct(ctx, [gen_direct(ctx.rng, i) for i in range(ctx.budget(400, 12000))])
-    HT.check(ctx, [HT.gen_case(ctx.rng, i) for i in range(ctx.budget(400, 8000))])
+    HT.check(ctx, HT.obs_corpus() + [HT.gen_case(ctx.rng, i) for i in range(ctx.budget(400, 8000))])
     check_e2e(ctx, gen_e2e(ctx))
 
 
